@@ -108,8 +108,7 @@ def check_port(ctx, backend, route, scheme, port, host, ui):
         if valid:
             ctx.check(False, "valid port rejected", observed=e, expected="accepted", entry=route)
         elif route == "with_port":
-            want = TypeError if not (type(port) is int) else ValueError
-            ctx.check(type(e) is want, "with_port rejects with the wrong exception type", observed=e, expected=want.__name__, entry=route)
+            pass  # "rejects": the statement does not fix which of ValueError/TypeError; both are accepted
         elif route in ("ctor", "build-authority", "with_scheme", "with_scheme-fresh"):
             ctx.check(isinstance(e, ValueError), "invalid port text must be rejected with ValueError", observed=e, expected="ValueError", entry=route)
         return
